@@ -85,6 +85,8 @@ def faults(sp, prefix="p", kind="transient"):
         w = e.world
         st = e.s3_backend(prefix=prefix)
         st.write_file("data/a", b"AAAA")
+        for extra in ("b", "c", "d", "e"):
+            st.write_file(f"data/{extra}", b"B")  # the listing of data/ spans three S3 pages
         st.write_file("metadata/x", b"XX")
         ops = ["read", "exists", "exists_missing", "list", "delete", "size", "open", "mtime", "write", "exists_dir"]
         op = ops[sp.choose(len(ops), name="op")]
@@ -131,7 +133,7 @@ def faults(sp, prefix="p", kind="transient"):
         for k in ("data/n",):
             e.s3.o.pop((prefix + "/" if prefix else "") + k, None)
         # inject: the r-th request of the operation fails k times in a row (transient) or once (permanent)
-        r = sp.choose(3, name="request_index")
+        r = sp.choose(4, name="request_index")
         k = 1 + sp.choose(5, name="run_length") if kind == "transient" else 1
         state = {"seen": 0, "left": k, "hit_label": None, "attempts_after": 0}
         code = {"transient": "SlowDown", "permanent": "AccessDenied", "permanent403": "403"}[kind]
@@ -227,6 +229,6 @@ def obligations(tier):
                       bounds=f"S3 prefix {pfx!r}: directory listings of 0..6 objects (S3 page size 2) in 3 directories", weight=2))
     for kind in ("transient", "permanent", "permanent403"):
         obs.append(Ob(f"c.faults.{kind}", "vf.props.c20c:faults", {"kind": kind, "_must_reach": ["ran"]}, timeout=T,
-                      bounds=f"each of 10 operations x fault at its 1st/2nd/3rd S3 request: {'1..5 consecutive transient errors' if kind == 'transient' else 'one permanent error (' + kind + ')'}",
+                      bounds=f"each of 10 operations x fault at its 1st..4th S3 request (listings span 3 pages): {'1..5 consecutive transient errors' if kind == 'transient' else 'one permanent error (' + kind + ')'}",
                       weight=3))
     return obs
